@@ -80,7 +80,8 @@ def run(ctx, res):
                 "targets absent/present/unopenable, sentinel afterwards; builtin text placement; L3 strace")
     c04r_l1.run_l1(ctx, res)
     builtin_sinks(ctx, res)
-    replays = [[R.PRELUDE()] + R.REPLAYS[c]() for c in ("capture-with-redirect",)] + [[R.PRELUDE(), R.S([R.E(0), R.E(1, True, frm="h")])]]
+    replays = [[R.PRELUDE()] + R.REPLAYS[c]() for c in ("capture-with-redirect", "captured-builtin-last-stage")] + [[R.PRELUDE(), R.S([R.E(0), R.E(1, True, frm="h")])]]
     R.run_sequences(ctx, res, "C04", replays, "replay")
+    R.run_sequences(ctx, res, "C04", R.captured_builtin_seqs(ctx), "builtin")
     R.run_sequences(ctx, res, "C04", R.gen_sequences(ctx, 200 if ctx.thorough else 35, 3, WEIGHTS, maxn=4), "seq")
     R.run_sequences(ctx, res, "C04", R.l3_cases(ctx)[-4:], "l3", strace=True)
